@@ -51,6 +51,8 @@ def patch_tokens(name, mi):
         return ["o", "jmp:" + name[4:]]
     if name.startswith("call:"):
         return ["o", "call:" + name[5:], "o"]
+    if name.startswith("twocalls:"):
+        return ["o", "call:" + name[9:], "o", "call:" + name[9:], "o"]
     if name.startswith("lea:"):
         return ["lea:" + name[4:], "o"]
     if name.startswith("dq:"):
